@@ -778,7 +778,12 @@ func (w *_assemblerRepr) AssignBool(b bool) error {
 func (w *_assemblerRepr) assignUInt(uin datamodel.UintNode) error {
 	switch stg := reprStrategy(w.schemaType).(type) {
 	case schema.UnionRepresentation_Kinded:
-		return w.asKinded(stg, datamodel.Kind_Int).(*_assemblerRepr).assignUInt(uin)
+		na := w.asKinded(stg, datamodel.Kind_Int)
+		if wr, ok := na.(*_assemblerRepr); ok {
+			return wr.assignUInt(uin)
+		}
+		// No int member: asKinded handed back an error assembler, which reports the wrong kind.
+		return na.AssignInt(0)
 	case schema.EnumRepresentation_Int:
 		uin, err := uin.AsUint()
 		if err != nil {
